@@ -63,6 +63,23 @@ Theorem C10_dup_templates_copy : dup_templates_ok dup_templates = true.
 Proof. exact dup_templates_copy. Qed.
 Print Assumptions C10_dup_templates_copy.
 
+(* the context attributes changed in place (derived from the templates' and functions' mutation
+   sites: ctx.global_array by ⅛ and ¼, ...) are pushed only as materialised copies; and the
+   obligation is not vacuous: such an attribute is pushed *)
+Theorem C10_ctx_pushes_materialised :
+  ctx_pushes_ok ctx_inplace_attrs ctx_pushes = true /\
+  existsb (fun p => mem_str (cp_attr p) ctx_inplace_attrs) ctx_pushes = true.
+Proof. exact ctx_pushes_materialised. Qed.
+Print Assumptions C10_ctx_pushes_materialised.
+
+(* why: a lazy view of a list that is appended to afterwards grows, a materialised snapshot
+   does not ( `1⅛ ¾ 2⅛` ) *)
+Example C10_snapshot_vs_view :
+  let st := snd (estep {| objs := [[1]; [1]]%Z; copies := []; lz := [] |} (EDup 0)) in
+  rden (erun st [EAppend 0 2]) (REager 1) = [1]%Z /\ rden (erun st [EAppend 0 2]) (RCopy 0) = [1; 2]%Z.
+Proof. exact snapshot_vs_view. Qed.
+Print Assumptions C10_snapshot_vs_view.
+
 (* after `:` (dup st r = the state with deep_copy(top) pushed, and the new reference), any
    sequence of non-mutating operations - every observation of C13 on either reference or
    on any other, reads, further duplications - leaves both references denoting what the
@@ -93,25 +110,26 @@ Theorem C10_copy_observes : forall k w st, cgood k st -> eop_ok (ECObs k w) = tr
 Proof. exact cobs_ok. Qed.
 Print Assumptions C10_copy_observes.
 
-(* the in-place primitives refute the property: the reference `:` made changes *)
-Theorem C10_assign_refuted :
+(* the in-place primitives of the heap model break a copy (facts about the model's primitives;
+   which code applies them to a shared object is decided by the summary and the oracle) *)
+Theorem C10_inplace_assign_breaks_copy :
   exists st r st1 r', swf st /\ rvalid st r /\ dup st r = Some (st1, r') /\
     rden st1 r' = [1; 2; 3]%Z /\ rden (erun st1 [EAssign 0 0 9]) r' = [9; 2; 3]%Z.
 Proof. exact assign_changes_copy. Qed.
-Print Assumptions C10_assign_refuted.
+Print Assumptions C10_inplace_assign_breaks_copy.
 
-Theorem C10_genfn_refuted :
+Theorem C10_inplace_append_breaks_view :
   exists st r st1 r', swf st /\ rvalid st r /\ dup st r = Some (st1, r') /\
     rden st1 r' = [1; 2]%Z /\
     rden (erun st1 [ECObs 0 (KIndex 0); EAppend 0 3; EAppend 0 5]) r' = [1; 2; 3; 5]%Z.
 Proof. exact append_changes_copy. Qed.
-Print Assumptions C10_genfn_refuted.
+Print Assumptions C10_inplace_append_breaks_view.
 
-Theorem C10_setitem_refuted :
+Theorem C10_setitem_breaks_view :
   exists st r st1 r', swf st /\ rvalid st r /\ dup st r = Some (st1, r') /\
     rden st1 r' = [1; 2; 3]%Z /\ rden (erun st1 [ESetLazy 0 1 9]) r' = [1; 9; 3]%Z.
 Proof. exact setitem_changes_copy. Qed.
-Print Assumptions C10_setitem_refuted.
+Print Assumptions C10_setitem_breaks_view.
 
 (* the damage depends on the history: an item the copy has already cached is out of reach *)
 Example C10_assign_after_read_unseen :
